@@ -1000,7 +1000,7 @@ class World:
                         f.write(_json.dumps(cfg, indent=4))
                     obs.result = op["size"]
         elif kind == "RES_UPDATE":
-            self.store.update(op["res"])
+            self.store.update(op["res"], op.get("size"))
             self.sync_remote_files()
         elif kind == "RES_DELETE":
             self.store.delete(op["res"])
